@@ -213,6 +213,13 @@ def w_image(pid, tier, seed, job):
         ntr = rng.randint(2, 4)
         frames = sorted(rng.sample(range(0, 12), ntr))
         binlen = 2352 * 14 + rng.choice([0, 7, 1000])
+        # tracks of length 0 (two tracks at one INDEX, a last track starting at the very end of the bin): their windows are
+        # "not clipped" views sitting directly on the shared handle
+        if rng.random() < 0.4:
+            frames[rng.randrange(1, ntr)] = frames[0] if ntr == 2 else frames[rng.randrange(0, ntr - 1)]
+            frames.sort()
+        if rng.random() < 0.3:
+            binlen = 2352 * frames[-1]
         content = bytes((i * 13 + 5) % 256 for i in range(binlen))
         cue = R.cue_text("t.bin", [{"indices": [(1, 0, 0, f)], "title": "T%d" % i} for i, f in enumerate(frames)])
         tmp = R.TempImage(cue.encode(), "t.cue", {"t.bin": content})
